@@ -262,6 +262,8 @@ type Pair { id: Int!  i: Int  f: Float  s: String  b: Boolean  li: [Int]  lli: [
     expect_error("s", 5, "int-for-str")
     expect_error("i", object(), "object")
 
-report["distinct_skeletons"] = len(set(report.pop("skeletons")))
+sk = sorted(set(report.pop("skeletons")))
+report["skeleton_list"] = sk
+report["distinct_skeletons"] = len(sk)
 json.dump(report, open(report_path, "w"), indent=1, default=repr)
 print(json.dumps({k: report[k] for k in ("evaluations", "rows_compared", "distinct_skeletons")}), len(report["violations"]), "violations")
